@@ -22,26 +22,26 @@ func init() { Registry["C08"] = Prop{Run: runC08, Replay: replayC08} }
 
 // instruction kinds of the shape alphabet.
 const (
-	kValU  = iota // unnamed value instruction (add)
-	kValN         // named value instruction
-	kVoidC        // void call
-	kCallU        // unnamed non-void call
-	kCallN        // named non-void call
-	kStore        // store
-	kFence        // fence
-	kVoidCT       // void call written with an explicit function type: call void () @vf()
-	kVoidCV       // void call of a variadic function: call void (i32, ...) @vv(i32 1)
+	kValU   = iota // unnamed value instruction (add)
+	kValN          // named value instruction
+	kVoidC         // void call
+	kCallU         // unnamed non-void call
+	kCallN         // named non-void call
+	kStore         // store
+	kFence         // fence
+	kVoidCT        // void call written with an explicit function type: call void () @vf()
+	kVoidCV        // void call of a variadic function: call void (i32, ...) @vv(i32 1)
 	nInstKinds
 )
 
 // terminator kinds of non-final blocks.
 const (
-	tBr    = iota
-	tInvV  // invoke void
-	tInvU  // invoke non-void, unnamed result
-	tInvN  // invoke non-void, named result
-	tCbrV  // callbr void
-	tCbrU  // callbr non-void, unnamed result
+	tBr   = iota
+	tInvV // invoke void
+	tInvU // invoke non-void, unnamed result
+	tInvN // invoke non-void, named result
+	tCbrV // callbr void
+	tCbrU // callbr non-void, unnamed result
 	nTermKinds
 )
 
@@ -387,11 +387,11 @@ func c08shapes(maxParams, maxBlocks, maxInsts int, instKinds, termKinds []int) [
 }
 
 type c08case struct {
-	Shape string `json:"shape"`
-	Form  string `json:"form"`
-	Text  string `json:"text"`
-	Got   string `json:"printed,omitempty"`
-	What  string `json:"what"`
+	Shape string   `json:"shape"`
+	Form  string   `json:"form"`
+	Text  string   `json:"text"`
+	Got   string   `json:"printed,omitempty"`
+	What  string   `json:"what"`
 	Func  *c08func `json:"func_shape,omitempty"`
 	Mod   []string `json:"module_shape,omitempty"`
 }
